@@ -369,3 +369,22 @@ def nndvi_domain_ok(det, X):
         return True
     pooled = np.unique(np.vstack([np.asarray(ref), np.asarray(X)]), axis=0)
     return len(pooled) >= det.k_nn
+
+
+def is_domain_end(name, det, exc):
+    """Is this ValueError the detector's documented refusal of degenerate data rather than a defect?
+    Decided from the data, not from the message text: CUSUM refuses a zero standard deviation (public
+    attribute ``sd_hat``); PCACD's kernel density estimate is refused by scikit-learn itself when a window of
+    projected scores has zero spread (the exception is raised inside scikit-learn)."""
+    import traceback
+
+    if name == "CUSUM":
+        sd = getattr(det, "sd_hat", None)
+        try:
+            return sd is not None and float(np.asarray(sd).ravel()[0]) == 0.0
+        except Exception:
+            return False
+    if name == "PCACD":
+        tb = traceback.extract_tb(exc.__traceback__)
+        return bool(tb) and "/sklearn/" in tb[-1].filename.replace("\\", "/")
+    return False
